@@ -40,7 +40,9 @@ def gen_case(rng, uptime_ns):
         elif r < 0.9:
             per = rng.randint(30, 120)
         else:
-            per = rng.choice([3600, 86400, 604800 * 5000])
+            # up to periods no clock reading can be moved back by (> 2^63 s: "n requests, ever")
+            per = rng.choice([3600, 86400, 604800 * 5000, 604800 * 30500568904943, 18446744073709551615,
+                              9223372036854775808])
         unit = rng.choice(["s", "s", "s", "m"]) if per % 60 == 0 and per >= 60 else "s"
         txt = "%d%s" % (per // 60 if unit == "m" else per, unit)
         limits.append([rng.randint(1, 20), txt, per])
